@@ -22,7 +22,7 @@ from concurrent.futures import ThreadPoolExecutor
 
 import core
 
-C24_CLAUSES = {"result", "lookup", "call", "introspect", "children", "hung"}
+C24_CLAUSES = {"result", "lookup", "call", "introspect", "children", "ghost-children", "hung"}
 C25_CLAUSES = {"prop-mirror", "prop-props"}
 C24_DEVS = {"prune": "remove-prunes-node", "root_panic": "root-remove-panic"}
 MIRROR_DEVS = {"prune", "nearest_only"}
